@@ -59,6 +59,7 @@ type Res struct {
 	RefBits  string         `json:"refbits"`
 	Single   bool           `json:"single"`      // the group has exactly one format
 	Fields   [][2]int64     `json:"fields"`      // [start bit, bit length] of numeric leaf fields
+	FNames   []string       `json:"fnames"`      // their names
 	Exit     int            `json:"exit"`        // command line runs: exit status
 	Stdout   bool           `json:"stdout_tree"` // command line runs: something was printed on stdout
 	Nodes    []treelib.Node `json:"nodes"`
@@ -237,6 +238,7 @@ func work(raw json.RawMessage) any {
 			case *scalar.Uint, *scalar.Sint:
 				if v.Range.Len >= 1 && v.Range.Len <= 64 {
 					res.Fields = append(res.Fields, [2]int64{v.Range.Start, v.Range.Len})
+					res.FNames = append(res.FNames, v.Name)
 				}
 			}
 			return nil
